@@ -9,7 +9,7 @@ package common
 //@ func rec sgcd(a int, b int) int = ite(b == 0, a, sgcd(b, a % b))
 
 //@ contract GCD
-//@   shape sig=(a int32,b int32)( int32);loops=forc;lits=0
+//@   shape sig=(a int32,b int32)( int32);loops=forc;lits=0;fv=
 //@   props C07
 //@   requires 0 <= a && 0 <= b
 //@   ensures  @zero: (a == 0 || b == 0) ==> result == 0
@@ -21,7 +21,7 @@ package common
 // Supported range: the product of the shard counts fits int32 (covers 1..16384 squared); this is the weakest
 // precondition for the int32 multiplication not to overflow.
 //@ contract LCM
-//@   shape sig=(a int32,b int32)( int32);loops=;lits=0
+//@   shape sig=(a int32,b int32)( int32);loops=;lits=0;fv=
 //@   props C07
 //@   requires 1 <= a && 1 <= b && a * b <= MaxInt32
 //@   ensures  @lcm: result == (a * b) / sgcd(min(a, b), max(a, b))
